@@ -39,7 +39,9 @@ class PreviewK:
     def __init__(self, rec):
         (self.k, res, self.polls, self.rng_calls, self.rate_calls, self.vars_before, self.vars_after,
          self.settings_before, self.settings_after, self.probes_before, self.probes_after,
-         self.rng_works, self.rates_work, self.calls_after_fire) = rec
+         self.rng_works, self.rates_work, self.calls_after_fire) = rec[:14]
+        # behavioural probes: (number of probes, [(input, result on the previewed context, result on a twin)])
+        self.behaviour = rec[14] if len(rec) > 14 else None
         self.panicked = (res[0] == b'panic')
         if self.panicked:
             self.text, self.is_unit, self.trailing_newline, self.spans_ok = None, None, None, None
